@@ -284,6 +284,9 @@ impl SemaphoreState {
                 // of the waiter list
                 unsafe { self.force_remove_waiter(wait_node) };
                 wait_node.state = PollState::Done;
+                // The removed waiter might have blocked waiters behind it
+                // which fit into the available permits. Wake those.
+                self.wakeup_waiters();
             }
             PollState::New | PollState::Done => {}
         }
